@@ -17,6 +17,14 @@ import warnings
 
 warnings.simplefilter("ignore")
 
+# the process runs in a time zone other than UTC (with a half-hour offset): nothing in the round trip may depend on it
+os.environ["TZ"] = os.environ.get("VERIF_C01_TZ", "Asia/Kolkata")
+try:
+    import time as _time
+    _time.tzset()
+except Exception:  # noqa: BLE001
+    pass
+
 import stix2  # noqa: E402
 import stix2.base  # noqa: E402
 import stix2.registry  # noqa: E402
@@ -564,6 +572,20 @@ def judge(case, res):
             dv = const_defaults_for_type(t).get(k, []) if t else []
             if not any(jeq(v, d) for d in dv):
                 fail("non-default-property-omitted", small[0], {"path": path, "property": k, "value": v})
+    # pretty output lists the top-level members in the object's own order (the order of the plain output with the same
+    # include_optional_defaults): custom and extension properties keep their place after the specified ones
+    for incl in (False, True):
+        plain = [o for o in good if not o["opts"].get("pretty") and not o["opts"].get("sort_keys")
+                 and bool(o["opts"].get("include_optional_defaults")) == incl]
+        if not plain:
+            continue
+        ref = plain[0]["top"]
+        if any(k.isdigit() for k in ref):
+            continue            # all-digit names are looked up as list positions by the pretty printer
+        for o in good:
+            if o["opts"].get("pretty") and not o["opts"].get("sort_keys") and bool(o["opts"].get("include_optional_defaults")) == incl:
+                if o["top"] != ref:
+                    fail("pretty-top-level-order-differs-from-object-order", o, {"pretty": o["top"], "plain": ref})
     # pretty output: top-level specification order
     order = spec_order(res["cls"])
     if order:
